@@ -4,7 +4,8 @@ Unbounded == 0          \* max_pending = 0 means no bound, as in the code
 CapUnbounded == {Unbounded}
 CapsQuick    == {Unbounded, 1}
 CapsFull     == {Unbounded, 1, 2}
-AllPolicies  == {"queue", "burst", "conf"}
+AllPolicies  == {"queue", "burst", "conf", "confd"}
+ConfdOnly    == {"confd"}
 QueueOnly    == {"queue"}
 BothKinds    == {"try", "block"}
 TryOnly      == {"try"}
